@@ -131,7 +131,7 @@ End ToTs.
 
 Definition ts_ftype (fk : fkind) : string :=
   match fk with
-  | FDef | FAsyncDef => "function_declaration" | FArrow => "arrow_function" | FMethod => "method_definition"
+  | FDef | FAsyncDef => "function_declaration" | FArrow | FArrowExpr => "arrow_function" | FMethod => "method_definition"
   | FFnExpr => "function_expression" | FGen => "generator_function_declaration"
   end.
 
@@ -146,7 +146,7 @@ Definition ts_names : tsnames := {|
     | KClosure => "arrow_function" | KAsyncBlock => "<none>" | KClass => "class_declaration"
     | KFn fk _ _ _ => ts_ftype fk end;
   n_wrap := fun k => match k with KSwitch => ["switch_body"] | KClass => ["class_body"] | _ => [] end;
-  n_blocked := fun k => match k with KSimple | KSwitch | KCase | KClass => false | _ => true end |}.
+  n_blocked := fun k => match k with KSimple | KSwitch | KCase | KClass | KFn FArrowExpr _ _ _ => false | _ => true end |}.
 
 Definition rs_names : tsnames := {|
   n_if := "if_expression"; n_else := "else_clause"; n_block := "block";
@@ -206,7 +206,7 @@ Inductive lang := Py | Ts | Rs.
 Definition fkind_ok (l : lang) (fk : fkind) : bool :=
   match l, fk with
   | Py, (FDef | FAsyncDef | FMethod) => true
-  | Ts, (FDef | FAsyncDef | FArrow | FMethod) => true
+  | Ts, (FDef | FAsyncDef | FArrow | FMethod | FArrowExpr) => true
   | Rs, (FDef | FAsyncDef | FMethod) => true
   | _, _ => false
   end.
